@@ -1,6 +1,7 @@
 package rules
 
 import (
+	"fmt"
 	"go/token"
 	"strings"
 
@@ -80,6 +81,45 @@ func runC07(ctx *core.Ctx) {
 				}
 				z, isZ := ssax.ConstInt(t.Call.Args[1])
 				ctx.Check(locked && guard && isZ && z == 0, "A2", "lockedfile.openFile#truncate"+itoa(k+1), t.Pos(), "Truncate(0) happens under the lock (%v), only for O_TRUNC callers (%v)", locked, guard)
+				// a failed truncation may be forgiven only for a file that is known not to be regular
+				var statErr, isReg ssa.Value
+				for _, c := range g.Calls("(*os.File).Stat") {
+					if g.Dominates(t, c) {
+						statErr = ssax.Extracted(c, 1)
+					}
+				}
+				g.Instrs(func(i ssa.Instruction) {
+					if c, ok := i.(*ssa.Call); ok && ssax.CalleeName(&c.Call) == "(io/fs.FileMode).IsRegular" && g.Dominates(t, c) {
+						isReg = c
+					}
+				})
+				bad := ""
+				for _, statOK := range []bool{true, false} {
+					for _, regular := range []bool{true, false} {
+						ex := &ssax.Explorer{G: g, Assume: func(v ssa.Value, nilness bool) ssax.Abs {
+							switch {
+							case nilness && v == ssa.Value(t):
+								return ssax.False // the truncation failed
+							case nilness && statErr != nil && v == statErr:
+								return ssax.AbsOf(statOK)
+							case !nilness && isReg != nil && v == isReg:
+								return ssax.AbsOf(regular)
+							}
+							return ssax.Unknown
+						}}
+						for _, e := range ex.Run(ssax.PointAfter(t)) {
+							r, ok := e.Last.(*ssa.Return)
+							if !ok || e.Kind != ssax.ExitReturn || e.Nil == nil || len(r.Results) != 2 {
+								continue
+							}
+							success := e.Nil(r.Results[1]) != ssax.False
+							if success && !(statOK && !regular) {
+								bad = fmt.Sprintf("with a failed Truncate, Stat ok=%v and regular=%v the file is still handed out (its old contents survive under the new ones)", statOK, regular)
+							}
+						}
+					}
+				}
+				ctx.Check(bad == "", "A2", "lockedfile.openFile#truncate-failure"+itoa(k+1), t.Pos(), "a failed Truncate(0) is forgiven only when Stat succeeded and the file is not regular %s", bad)
 			}
 		}
 	}
@@ -371,6 +411,60 @@ func runC07(ctx *core.Ctx) {
 				if !ok || u.X != cell {
 					okCell = false
 				}
+			}
+			// ... and must not change it: a roll-back that assigns the result hides the failure it reacts to
+			{
+				var rfn *ssa.Function
+				switch x := rb.Call.Value.(type) {
+				case *ssa.MakeClosure:
+					rfn, _ = x.Fn.(*ssa.Function)
+				case *ssa.Function:
+					rfn = x
+				}
+				writes := false
+				if rfn != nil {
+					for _, b := range rfn.Blocks {
+						for _, ins := range b.Instrs {
+							if st, ok := ins.(*ssa.Store); ok && callerOf(rb, rfn, st.Addr) == cell && cell != nil {
+								writes = true
+							}
+						}
+					}
+				}
+				ctx.Check(!writes, "A3", "lockedfile.Transform#rollback-keeps-result", rb.Pos(), "the roll-back only reads the function's result error; it never assigns it (a successful roll-back must not turn the failure into a nil return)")
+			}
+			// success means written: every return of a nil error after the user function succeeded lies
+			// behind an overwrite of the file's head
+			{
+				okW := len(overwrites) > 0
+				for _, r := range g.Returns() {
+					rv := ssax.ReturnValues(r)
+					if len(rv) != 1 || !ssax.IsNil(rv[0]) || !g.Dominates(tcall, r) {
+						continue
+					}
+					behind := false
+					for _, o := range overwrites {
+						if g.Dominates(o, r) {
+							behind = true
+						}
+					}
+					// two alternative overwrites (grow / shrink branches): together they must cover the return
+					if !behind {
+						hit, _ := g.ReachableWithout(ssax.PointAfter(tcall), func(i ssa.Instruction) bool { return i == ssa.Instruction(r) }, func(i ssa.Instruction) bool {
+							for _, o := range overwrites {
+								if i == ssa.Instruction(o) {
+									return true
+								}
+							}
+							return false
+						})
+						behind = hit == nil
+					}
+					if !behind {
+						okW = false
+					}
+				}
+				ctx.Check(okW, "A3", "lockedfile.Transform#nil-means-written", tcall.Pos(), "after the user function returned, Transform returns nil only on paths that wrote the new contents over the file's head (no shortcut that skips the write)")
 			}
 			ctx.Check(okCell, "A3", "lockedfile.Transform#rollback-sees-result", rb.Pos(), "the roll-back tests the function's own result error: every return passes its value through the variable the deferred function reads")
 			ok := len(overwrites) > 0
